@@ -34,7 +34,7 @@ def code_of_blocks(block_tokens, tags=True):
     return code
 
 
-def document(init_blocks, run_blocks, with_noasm=True, with_source_list=True, extra_contract=None):
+def document(init_blocks, run_blocks, with_noasm=True, with_source_list=True, extra_contract=None, homonym=None):
     asm = {".code": code_of_blocks(init_blocks),
            ".data": {"0": {".auxdata": "a264697066735822", ".code": code_of_blocks(run_blocks)}}}
     if with_source_list:
@@ -44,6 +44,9 @@ def document(init_blocks, run_blocks, with_noasm=True, with_source_list=True, ex
         contracts["f.sol:I"] = {"asm": None}
     if extra_contract is not None:
         contracts["f.sol:D"] = {"asm": extra_contract}
+    if homonym is not None:
+        # a second contract with the same short name in another file (block names are derived from the short name)
+        contracts["lib/g.sol:C"] = {"asm": homonym}
     return {"contracts": contracts, "version": "0.8.17+commit.8df45f5f.Linux.g++"}
 
 
